@@ -48,6 +48,7 @@ Proof.
   apply rbind_ok in H as (dv & e3 & e4 & _ & H & _).
   apply rbind_ok in H as (avs & e5 & e6 & _ & H & _).
   apply rbind_ok in H as (sv & e7 & e8 & _ & H & _).
+  apply rbind_ok in H as (u0 & e70 & e80 & _ & H & _).
   apply rbind_ok in H as (asg & e9 & e10 & _ & H & _).
   apply rbind_ok in H as (u & e11 & e12 & Hu & H & _).
   apply rbind_ok in H as (pre & e13 & e14 & _ & H & _).
